@@ -753,6 +753,16 @@ void SolveResultRegistry::AddSolveResults(
 
 void BasicSolver::UseOptionFile(const SolverOption &, fmt::StringRef value) {
   option_file_save_ = value;
+  // An option file may name another one; refuse endless nesting
+  // (e.g., a file naming itself) instead of overflowing the stack.
+  struct NestingGuard {
+    int& n_;
+    NestingGuard(int& n) : n_(n) { ++n_; }
+    ~NestingGuard() { --n_; }
+  } nesting_guard(option_file_nesting_);
+  if (option_file_nesting_ > 16)
+    MP_RAISE(fmt::format("Option file '{}': "
+                         "option files nested too deeply", value));
   std::ifstream ifs(value);
   if (ifs.good())
     ProcessLines_AvoidComments(ifs,
